@@ -252,4 +252,14 @@ def r5(ctx):
     ctx.sub(c13.r2)    # assigning labels re-derives member_points immediately (full-equality skip condition only)
     ctx.sub(c08.r6, only=("commit:in-loop",))    # each refill is committed to the working state through the label setter
     from . import c09
+    from . import c14
+    ctx.sub(c14.r2, only=("producer:", "consumer:"))    # task k is built from cluster k's covariance and its result is stored for cluster k
     c09.lifecycle(ctx, {"fresh-stats"})    # nothing relabels between the statistics phase and the optimiser: repopulate -> statistics -> optimise
+
+
+@rule("C12", "R6", "OWN", "between the statistics phase and the hand-off nothing edits the fitted statistics: the optimise phase never writes its input state", evidence=True)
+def r6(ctx):
+    """The optimiser must receive the sample covariance itself - an in-place clean-up of `empirical_covariance` on the way (a
+    threshold, a symmetrisation, a regulariser) changes what cluster k is fitted to."""
+    from . import c13
+    ctx.sub(c13.r6, only=(r"input-write:graphical_lasso\.optimize_markov_random_fields",))
